@@ -206,7 +206,7 @@ CONFIG = {
         "Predecessors results are compared as sets projected to descriptor.FromOCI (media type, digest, size); Tags compared sorted",
     ],
     "level_text": "Coq theorems over all operation histories: the memory store (cas.Memory + resolver.Memory{index,tags} + graph.Memory{nodes,predecessors,successors}) and the OCI layout store (blobs by digest + implicit tag-by-digest + Resolve/resolveBlob fallback + Untag + Delete without AutoGC + Tags) refine an abstract content map + tag map (equal outputs, equal maps, Predecessors = stored manifests whose successor list contains the node); a refused or failed operation leaves the whole concrete state unchanged; Fetch returns exactly the pushed bytes, re-push is already-exists and a no-op, Resolve returns the most recent Tag, absent content is not-found, Delete clears content and names; the Delete loop is independent of Go's map iteration order; file store: no Fetch returns bytes not matching the digest, failed operations are no-ops on the repaired code (refuted with a witness on the code as found), duplicate-name; every interleaving of the atomic steps of the memory store and of the OCI store (Delete exclusive) reaches at quiescence the state of a sequential order that keeps program order. Tied to the code by differential runs of random histories (three store kinds, option matrix, concurrent goroutines with a serialisability search on the extracted model) and an independent reference oracle",
-    "level_note": "OCI sequential theorems hold for histories that push and delete content under one descriptor per digest (Fetch/Exists/Tag/Predecessors may use any descriptor of the digest, e.g. the octet-stream one Resolve(<digest>) returns); deleting with a descriptor of another media type leaves a stale graph node (not observable through Predecessors) and is outside the theorems but generated. File store: clause theorems (fetch returns pushed/matches digest, duplicate-name, unnamed re-push refused, resolve-latest, failed-noop) hold without the aliasing name (two names for one path) and, for failed-noop and the concurrency theorem, without titled successors; 'absent content is not-found' and Predecessors of the file store are oracle/correspondence only; with IgnoreNoName an unnamed Push returns nil and discards the content, so 'Fetch returns the pushed bytes' does not apply to it (oracle clause push-ignored). Four file-store behaviours and one OCI behaviour that contradict the statement are known findings with _refuted witnesses / dedicated oracle clauses (unnamed re-push of content present through a named file; LimitedStorage cuts trailing data; second name for a path; restoreDuplicates failing after the store; racing OCI pushes all succeed). Observed but not machine-reported: file.Store.Push = store ; restoreDuplicates ; graph.Index is not atomic, so with titled successors concurrent histories reach states no sequential order produces (a concurrent Tag/Push between store and restore) -- concurrent streams use untitled content. Concurrency: outputs of concurrent operations are constrained only where one atomic step decides them (memory: all but Predecessors; file: Push); OCI outputs are unconstrained. Not generated: oci.ReadOnlyStore (NewFromFS/NewFromTar), GC/AutoGC (C09), index.json contents (C08), file ForceCAS/SkipUnpack/pushDir/AllowPathTraversalOnWrite/NewWithFallbackLimit/Storage, sizes above the 4 MiB fallback limit or the 1 MiB copy buffer, invalid digests, Close.",
+    "level_note": "OCI sequential theorems hold for histories that push and delete content under one descriptor per digest (Fetch/Exists/Tag/Predecessors may use any descriptor of the digest, e.g. the octet-stream one Resolve(<digest>) returns); deleting with a descriptor of another media type leaves a stale graph node (not observable through Predecessors) and is outside the theorems but generated. File store: clause theorems (fetch returns pushed/matches digest, duplicate-name, unnamed re-push refused, resolve-latest, absent-is-not-found, failed-noop) hold -- the first and the last two of them without the aliasing name (two names for one path) and, for failed-noop and the concurrency theorem, without titled successors; Predecessors of the file store is oracle/correspondence only (no refinement to an abstract spec for the file store); with IgnoreNoName an unnamed Push returns nil and discards the content, so 'Fetch returns the pushed bytes' does not apply to it (oracle clause push-ignored). Four file-store behaviours and one OCI behaviour that contradict the statement are known findings with _refuted witnesses / dedicated oracle clauses (unnamed re-push of content present through a named file; LimitedStorage cuts trailing data; second name for a path; restoreDuplicates failing after the store; racing OCI pushes all succeed). Observed but not machine-reported: file.Store.Push = store ; restoreDuplicates ; graph.Index is not atomic, so with titled successors concurrent histories reach states no sequential order produces (a concurrent Tag/Push between store and restore) -- concurrent streams use untitled content. Concurrency: outputs of concurrent operations are constrained only where one atomic step decides them (memory: all but Predecessors; file: Push); OCI outputs are unconstrained. Not generated: oci.ReadOnlyStore (NewFromFS/NewFromTar), GC/AutoGC (C09), index.json contents (C08), file ForceCAS/SkipUnpack/pushDir/AllowPathTraversalOnWrite/NewWithFallbackLimit/Storage, sizes above the 4 MiB fallback limit or the 1 MiB copy buffer, invalid digests, Close.",
     "technique": "machine-checked proof in Coq (refinement of the concrete store state machines to a content map + tag map, invariants by induction over histories, LTS invariant over all interleavings for the memory store) + translator-regenerated media-type tables + model/implementation correspondence on random histories + independent reference oracle",
     "explanation": "theorems quantify over every finite history (and, for the memory store, every schedule of atomic steps); the harness replays random histories over small universes of real blobs/manifests/references on memory.Store, oci.Store and file.Store (IgnoreNoName/DisableOverwrite matrix), compares every result with the extracted model, judges every step against its own content/tag maps and the DAG generator's ground truth, reads the whole state back around failed operations, and for concurrent histories searches a sequential order (respecting real time) of the same operations whose final observable state matches",
 }
